@@ -266,6 +266,73 @@ class Cluster:
             pass
         return out
 
+    # ---- the leader's entry-log clean (lib/raftconn/node.go deleteEntryLogPeriodically), read from logs/<i>/store.log ----
+    # needs [logging] level = "info". One RaftNode per store and database partition: with one replicated database every
+    # store runs one ticker (period TICK_S, started with the raft node, not configurable).
+    TICK_S = 60.0
+
+    @staticmethod
+    def _log_time(s):
+        """RFC3339Nano UTC -> epoch seconds"""
+        m = re.match(r"(\d+)-(\d+)-(\d+)T(\d+):(\d+):(\d+)(\.\d+)?Z", s)
+        if not m:
+            return None
+        import calendar
+        return calendar.timegm(tuple(int(m.group(k)) for k in range(1, 7)) + (0, 0, 0)) + float(m.group(7) or 0)
+
+    def clean_ticks(self, i):
+        """(ticker starts, ticks) of store i. A tick is {"t", "obs", "active", "min_index"} with obs =
+        "follower" (not the raft leader: deleteEntryLog returns at once), "nosnap" (leader without a snapshot: the members are not
+        looked at), "healthy" (everybody alive: ordinary ClearEntryLog proposed), "away" (a member is not alive, outage timer
+        running), "forced" (a member is not alive and the timer has expired: ClearEntryLog computed from the active members)."""
+        d = os.path.join(self.dir, f"n{i}", "logs", str(i))
+        starts, ticks = [], []
+        try:
+            names = sorted(f for f in os.listdir(d) if f.startswith("store") and "error" not in f and "raft" not in f)
+        except OSError:
+            return starts, ticks
+        lines = []
+        for f in names:
+            try:
+                for ln in open(os.path.join(d, f), "rb"):
+                    if b"raftconn/node.go" in ln:
+                        try:
+                            lines.append(json.loads(ln.decode(errors="replace")))
+                        except Exception:
+                            pass
+            except OSError:
+                pass
+        lines.sort(key=lambda x: x.get("time", ""))
+        cur = None
+        for x in lines:
+            msg, t = x.get("msg", ""), self._log_time(x.get("time", ""))
+            if t is None:
+                continue
+            if msg == "delete entry log periodically":
+                starts.append(t)
+                cur = None
+            elif msg == "delete entry log start":
+                cur = {"t": t, "obs": "follower", "active": None, "min_index": None}
+                ticks.append(cur)
+            elif cur is not None and t - cur["t"] < 5.0:
+                if msg.startswith("dont have a snapshot yet"):
+                    cur["obs"] = "nosnap"
+                elif msg.startswith("rg member is not all active"):
+                    cur["obs"] = "away"
+                    cur["active"] = x.get("activePtSlice")
+                elif msg.startswith("genProposeData marshal index is"):
+                    cur["obs"] = "forced" if cur["obs"] == "away" else "healthy"
+                    cur["min_index"] = x.get("minIndex")
+        return starts, ticks
+
+    def entry_files(self, i, db, pt):
+        """raft entry files of partition pt on store i (the ClearEntryLog command deletes whole files from the front)"""
+        ed = os.path.join(self.dir, f"n{i}", "data", "wal", db, str(pt), "__raft_entries__")
+        try:
+            return sorted(f for f in os.listdir(ed) if f.endswith(".entry"))
+        except OSError:
+            return []
+
     @staticmethod
     def _kill(p, sig=signal.SIGKILL):
         if p is not None and p.poll() is None:
